@@ -34,7 +34,7 @@ def _minimise(fp, line_no, scratch):
 
 def validate(sc, cfg, files, kind, parallel=8, timeout=3000, replay=False):
     """Validate every part file with its own TLC (workers=1: the high-water mark needs it)."""
-    env = {"JAVA_TOOL_OPTIONS": "-Xmx6g -XX:ParallelGCThreads=2"}
+    env = {}   # verifylib's default heap cap for -workers 1 (2 GB) is enough: measured peak < 1.5 GB on the largest part
     if replay:
         env["C20_REPLAY"] = "1"
 
@@ -78,9 +78,8 @@ def validate(sc, cfg, files, kind, parallel=8, timeout=3000, replay=False):
 
 
 def model(sc, cfg, workers, expect=None, timeout=2400):
-    """V.model_check with a bounded number of GC threads (the machine is shared)."""
-    res = V.run_tlc(sc, "Auth", "AuthMC.tla", cfg, workers=workers, timeout=timeout,
-                    env_extra={"JAVA_TOOL_OPTIONS": "-XX:ParallelGCThreads=4"})
+    """V.model_check, returning the raw result (the expected counterexample is reported in the evidence)."""
+    res = V.run_tlc(sc, "Auth", "AuthMC.tla", cfg, workers=workers, timeout=timeout)
     if res["violated"]:
         if expect and res["violated"] in expect:
             V.log("model Auth/%s: expected counterexample for %s (observation only)" % (cfg, res["violated"]))
@@ -119,7 +118,7 @@ def run(sc, tier, seed):
     with concurrent.futures.ThreadPoolExecutor(max_workers=5) as ex:
         # design level: every grant table of the universe; the HTTP filter chain for every request
         f_m1 = ex.submit(model, sc, "Auth_%s.cfg" % tier, 8)
-        f_m2 = ex.submit(model, sc, "AuthHttp_%s.cfg" % tier, 12)
+        f_m2 = ex.submit(model, sc, "AuthHttp_%s.cfg" % tier, 8)
         # observation: the property as stated (strict injectivity of the database mapping) fails in the model of the code
         f_m3 = ex.submit(model, sc, "Auth_dbstrict.cfg", 1, {"DbMapInjectiveStrict"}, 600)
         f_d = ex.submit(direct)
